@@ -236,7 +236,7 @@ def render_expr(e, L: Layout, ctx=0, top_break=False):
                 elif k == 2:
                     sp_r += '   \t\n'
                 elif k == 3:
-                    sp_r += '    # ' + (L.rng.choice(COMMENTS) if L.rng else 'comment-only line') + '\n'
+                    sp_r += (L.rng.choice(['    ', '', '\t']) if L.rng else '    ') + render_comment(L, 'comment-only line') + '\n'
             sp_r += ' ' * (L.rng.choice([0, 4, 8]) if L.rng else 4)
         s = l + sp_l + e.op + sp_r + r
     else:
@@ -252,6 +252,27 @@ COMMENTS = ['comment', 'Y = X', '{a} <e> [1]', '', 'a) income identity', '(conti
             '# nested', 'Z = (1 +']
 
 
+def render_comment(L: 'Layout', default='comment'):
+    """A comment from its `#` to the end of the line, in every SHAPE (not just with every text): `# text`, `#text`
+    (no blank), a bare `#` (the usual spacer line of a comment block), `#` followed by blanks or a tab only, `##text`,
+    trailing blanks after the text.  Deterministic `# <default>` without an rng."""
+    if not L.rng:
+        return '# ' + default
+    text = L.rng.choice(COMMENTS)
+    return L.rng.choice(['# ' + text, '# ' + text, '#' + text, '#', '#', '#   ', '#\t', '##' + text, '## ' + text,
+                         '# ' + text + '  ', '#' + text + '\t'])
+
+
+def comment_gap(L: 'Layout'):
+    """What separates code from a trailing comment: blanks, a tab, or nothing at all (`X#c`)."""
+    return L.rng.choice(['  ', '  ', ' ', '', '\t']) if L.rng else '  '
+
+
+def comment_indent(L: 'Layout'):
+    """Column of a comment-only line between statements: 0, or indented."""
+    return L.rng.choice(['', '', '    ', '\t']) if L.rng else ''
+
+
 def render_equation(eq: Equation, L: Layout):
     lhs = render_term(eq.lhs, L, lhs=True)
     if L.wrap_rhs:
@@ -260,7 +281,7 @@ def render_equation(eq: Equation, L: Layout):
         rhs = render_expr(eq.rhs, L, 0)
     s = lhs + L.sp(L.eq_space, ('', ' ', '   ')) + '=' + L.sp(L.eq_space, ('', ' ', '   ')) + rhs
     if L.comment:
-        s += '  # ' + (L.rng.choice(COMMENTS) if L.rng else 'comment')
+        s += comment_gap(L) + render_comment(L, 'comment')
     return s
 
 
@@ -269,7 +290,7 @@ def render(prog: Program, L: Layout = PLAIN):
     for i, st in enumerate(prog.statements):
         if i and L.blank_lines:
             for j in range(L.blank_lines):
-                out.append('' if j % 2 == 0 else '# ' + (L.rng.choice(COMMENTS) if L.rng else 'a comment-only line'))
+                out.append('' if j % 2 == 0 else comment_indent(L) + render_comment(L, 'a comment-only line'))
         if isinstance(st, Equation):
             out.append(render_equation(st, L))
         else:
